@@ -2,8 +2,8 @@ package staking
 
 // C07 (staking actions at submission) — the submission-side handlers move tokens only by
 // detaining exactly the submitted amount from the sender of a deposit or a new delegation;
-// withdrawals and undelegations move nothing at submission (they take effect at the period
-// end); a refused action changes no balance at all.  Together with zzH_C07_take_effect (which
+// withdrawals, undelegations, updates, status changes and settle requests move nothing at
+// submission (they take effect at the period end); a refused action changes no balance at all.  Together with zzH_C07_take_effect (which
 // re-reads the same amount from the stored transaction) the round trip conserves tokens.
 
 import (
@@ -29,6 +29,13 @@ func zzC07sDecode(b []byte, out interface{}) error {
 		o.MainAddress, o.Value = zzValAddr(1), new(big.Int).Set(zzC07tValue)
 	case *TxValidatorWithdraw:
 		o.MainAddress, o.Value, o.Recipient = zzValAddr(1), new(big.Int).Set(zzC07tValue), common.Address{0x11}
+	case *TxUpdateValidator:
+		*o = TxUpdateValidator{MainAddress: zzValAddr(1), Name: "renamed", OperatorAddress: common.Address{0x13}, Coinbase: common.Address{0x14},
+			CommissionRate: zzverif.U16("upd.commission"), RiskObligation: zzverif.U16("upd.risk"), AcceptDelegation: zzverif.U16("upd.accept")}
+	case *TxValidatorChangeStatus:
+		o.MainAddress, o.Status = zzValAddr(1), zzverif.U8("newStatus")
+	case *TxValidatorSettle:
+		o.MainAddress = zzValAddr(1)
 	}
 	return nil
 }
@@ -47,10 +54,14 @@ func zzH_C07_submit() {
 	yp.MinSelfStakes = map[params.ValidatorRole]uint64{1: 0, 2: 0, 3: 0}
 	yp.SignatureRequired = map[params.ValidatorRole]bool{}
 	yp.MaxDelegationForValidator, yp.MaxDelegationForDelegator = 10, 10
-	action := zzverif.Choose("action", 4)
+	action := zzverif.Choose("action", 7)
 	from := common.Address{0x11} // operator of validator 1
-	if action >= 2 {
+	if action == 2 || action == 3 {
 		from = zzC07Dlg
+	}
+	foreign := false
+	if action >= 4 && zzverif.Bool("sentBySomebodyElse") {
+		from, foreign = common.Address{0x12}, true // the operator of validator 2
 	}
 	s.SetBalance(from, zzverif.Big("sender.balance", 90))
 	s.Finalise(false)
@@ -78,6 +89,18 @@ func zzH_C07_submit() {
 	case 3:
 		err = handleDelegationSub(ctx, []byte{1})
 		zzverif.Reach("delegation-sub")
+	case 4:
+		err = handleUpdate(ctx, []byte{1})
+		zzverif.Reach("update")
+	case 5:
+		err = handleChangeStatus(ctx, []byte{1})
+		zzverif.Reach("change-status")
+	case 6:
+		err = handleSettle(ctx, []byte{1})
+		zzverif.Reach("settle")
+	}
+	if foreign {
+		zzverif.Assert(err != nil, "only a validator's operator may update it, change its status or settle it")
 	}
 	want := new(big.Int).Set(senderBefore)
 	if err == nil && detains {
